@@ -229,6 +229,13 @@ Proof.
   rewrite map_nth, seq_nth by exact H. reflexivity.
 Qed.
 
+Lemma nth_abs' q i d : nth i (abs q) d = if i <? cnt q then getu q i else d.
+Proof.
+  destruct (i <? cnt q) eqn:E.
+  - apply nth_abs. lia.
+  - apply nth_overflow. rewrite abs_length. lia.
+Qed.
+
 Lemma abs_ext q l : cnt q = length l -> (forall i, i < length l -> getu q i = nth i l 0%Z) -> abs q = l.
 Proof.
   intros Hc Hn. apply (list_ext _ _ 0%Z).
@@ -244,3 +251,4 @@ Proof.
 Qed.
 
 #[export] Hint Rewrite abs_length : nthdb.
+#[export] Hint Rewrite nth_abs' : absdb.
